@@ -19,7 +19,6 @@ package expr
 import (
 	"fmt"
 	"runtime/debug"
-	"strconv"
 	"strings"
 
 	"github.com/antlr4-go/antlr/v4"
@@ -128,11 +127,7 @@ func (l *ParseTreeListener) parseInnerExpr(key string, ctx IInnerExprContext) {
 	}
 	switch {
 	case ctx.Value().STRING() != nil:
-		s, err := strconv.Unquote(ctx.Value().STRING().GetText())
-		if err != nil {
-			panic(err)
-		}
-		l.Result[fieldKey] = s
+		l.Result[fieldKey] = unquote(ctx.Value().STRING().GetText())
 	case ctx.Value().IDENT() != nil:
 		l.Result[fieldKey] = ctx.Value().IDENT().GetText()
 	case ctx.Value().INTEGER() != nil:
@@ -143,4 +138,36 @@ func (l *ParseTreeListener) parseInnerExpr(key string, ctx IInnerExprContext) {
 		l.parseExpr(fieldKey, ctx.Value().Expr())
 	default: // for linter
 	}
+}
+
+// unquote returns the value of a STRING token: the text between the quotes with
+// the escape sequences of the grammar (\" \\ \/ \b \f \n \r \t) replaced.
+// strconv.Unquote cannot be used here: it rejects \/ and raw line breaks,
+// both of which the lexer accepts.
+func unquote(s string) string {
+	if len(s) < 2 {
+		return s
+	}
+	n := len(s) - 1
+	buf := make([]byte, 0, n)
+	for i := 1; i < n; i++ {
+		c := s[i]
+		if c == '\\' && i+1 < n {
+			i++
+			switch c = s[i]; c {
+			case 'b':
+				c = '\b'
+			case 'f':
+				c = '\f'
+			case 'n':
+				c = '\n'
+			case 'r':
+				c = '\r'
+			case 't':
+				c = '\t'
+			}
+		}
+		buf = append(buf, c)
+	}
+	return string(buf)
 }
